@@ -69,6 +69,14 @@ var handledCRLExtensions = map[string]bool{
 	OidCrlExtCrlNumber:       true,
 }
 
+const OidCrlEntryExtReasonCode = "2.5.29.21"
+const OidCrlEntryExtInvalidityDate = "2.5.29.24"
+
+var handledCRLEntryExtensions = map[string]bool{
+	OidCrlEntryExtReasonCode:     true,
+	OidCrlEntryExtInvalidityDate: true,
+}
+
 func FindExtension(oidString string, extensions *[]pkix.Extension) *pkix.Extension {
 	if extensions == nil {
 		return nil
@@ -97,6 +105,21 @@ func CheckForCriticalUnhandledCRLExtensions(extensions *[]pkix.Extension) error 
 			extensionIdStr := extension.Id.String()
 			if handledCRLExtensions[extensionIdStr] == false {
 				return errors.New(fmt.Sprintf("unhandled critical crl extension %s", extensionIdStr))
+			}
+		}
+	}
+	return nil
+}
+
+// CheckForCriticalUnhandledCRLEntryExtensions RFC 5280 5.3: a CRL with a critical entry extension which can not be processed must not be used
+func CheckForCriticalUnhandledCRLEntryExtensions(extensions []pkix.Extension) error {
+	//Unhandled CRL Entry Extensions in general:
+	//Certificate Issuer 2.5.29.29 - No indirect CRL support, the entries would be assigned to the wrong issuer (critical)
+	for _, extension := range extensions {
+		if extension.Critical {
+			extensionIdStr := extension.Id.String()
+			if handledCRLEntryExtensions[extensionIdStr] == false {
+				return errors.New(fmt.Sprintf("unhandled critical crl entry extension %s", extensionIdStr))
 			}
 		}
 	}
